@@ -261,12 +261,61 @@ impl<'tcx> Cx<'tcx> {
                     if let Ok(val) = c.const_.eval(self.tcx, env, c.span) {
                         let ev = mir::Const::Val(val, cty);
                         o.push(("ev", s(np!(format!("{}", ev)))));
+                        if let Some(v) = self.enum_ref_variant(val, cty) {
+                            o.push(("enum_variant", s(v)));
+                        }
+                    }
+                }
+                if let mir::Const::Val(val, _) = c.const_ {
+                    if let Some(v) = self.enum_ref_variant(val, cty) {
+                        o.push(("enum_variant", s(v)));
                     }
                 }
                 J::Obj(o)
             }
             _ => J::Obj(vec![("k", s("runtime_checks"))]),
         }
+    }
+
+    /// `&Enum::Variant` promoted constants of field-less crate enums: name of the variant
+    fn enum_ref_variant(&self, val: mir::ConstValue, ty: Ty<'tcx>) -> Option<String> {
+        let inner = match ty.kind() {
+            ty::Ref(_, t, _) => *t,
+            _ => return None,
+        };
+        let def = match inner.kind() {
+            ty::Adt(d, _) if d.is_enum() && d.did().is_local() => *d,
+            _ => return None,
+        };
+        if !def.variants().iter().all(|v| v.fields.is_empty()) {
+            return None;
+        }
+        let ptr = match val {
+            mir::ConstValue::Scalar(rustc_middle::mir::interpret::Scalar::Ptr(p, _)) => p,
+            _ => return None,
+        };
+        let (prov, off) = ptr.prov_and_relative_offset();
+        let alloc = match self.tcx.global_alloc(prov.alloc_id()) {
+            rustc_middle::mir::interpret::GlobalAlloc::Memory(m) => m,
+            _ => return None,
+        };
+        let a = alloc.inner();
+        let start = off.bytes() as usize;
+        let size = a.len() - start;
+        if size == 0 || size > 8 {
+            return None;
+        }
+        let bytes = a.inspect_with_uninit_and_ptr_outside_interpreter(start..start + size);
+        let mut v: u128 = 0;
+        for (i, b) in bytes.iter().enumerate() {
+            v |= (*b as u128) << (8 * i);
+        }
+        for (vi, var) in def.variants().iter_enumerated() {
+            if def.discriminant_for_variant(self.tcx, vi).val == v {
+                return Some(var.name.to_string());
+            }
+        }
+        None
     }
 
     fn rvalue(&self, owner: DefId, body: &mir::Body<'tcx>, rv: &Rvalue<'tcx>) -> J {
